@@ -88,6 +88,12 @@ def op_variant(m, sg, op):
         qz = t.quantization
         if m.buffers[t.buffer].data is not None and qz is not None and qz.scale is not None and len(qz.scale) > 1:
             var.append("channelwise-const-rhs")
+    if name == "DEPTHWISE_CONV_2D" and len(ins) > 1 and ins[0] is not None and ins[1] is not None:
+        t = ins[1]
+        qz = t.quantization
+        if (ins[0].type == TT.FLOAT32 and t.type in (TT.INT8, TT.INT4) and qz is not None and qz.scale is not None and len(qz.scale) == 1
+                and t.shape is not None and len(t.shape) == 4 and int(t.shape[3]) > 1):
+            var.append("hybrid-tensorwise")
     for t in ins:
         if t is None or t.type not in (TT.INT32, TT.INT64) or m.buffers[t.buffer].data is None:
             continue
@@ -159,6 +165,53 @@ def localise(interp, mb_q, mb_ref, data, tol, ctx=None):
     return first_any
 
 
+def producer_class(mb_q, sig, out_name):
+    """call-site class of the original operator that computes signature output `out_name` (inserted Q/DQ skipped)"""
+    m = pl.read(mb_q)
+    sd = [x for x in (m.signatureDefs or []) if x.signatureKey.decode() == sig]
+    if not sd:
+        return None
+    sg = m.subgraphs[sd[0].subgraphIndex]
+    t = next((tm.tensorIndex for tm in sd[0].outputs if tm.name.decode() == out_name), None)
+    for _ in range(4):
+        op = next((o for o in sg.operators if t in list(o.outputs)), None)
+        if op is None:
+            return None
+        name = pl.BO_NAME.get(m.operatorCodes[op.opcodeIndex].builtinCode)
+        if name in ("QUANTIZE", "DEQUANTIZE") and len(op.inputs) == 1:
+            t = op.inputs[0]
+            continue
+        return op_variant(m, sg, op)
+    return None
+
+
+def abs_magnitudes(interp, ref_mb, data, ctx=None):
+    """output magnitudes of the reference model run on |inputs| with |constants|: the scale of the accumulated terms,
+    which (unlike the output magnitude itself) does not shrink under cancellation"""
+    m = pl.read(ref_mb)
+    seen = set()
+    for sg in m.subgraphs:
+        for t in sg.tensors:
+            b = m.buffers[t.buffer]
+            if t.type == TT.FLOAT32 and b.data is not None and t.buffer not in seen:
+                seen.add(t.buffer)
+                a = np.abs(np.frombuffer(np.asarray(b.data, dtype=np.uint8).tobytes(), dtype=np.float32))
+                b.data = np.frombuffer(a.tobytes(), dtype=np.uint8)
+    mb = bytes(flatbuffer_utils.convert_object_to_bytearray(m))
+    d = {k: [{a: (np.abs(v) if v.dtype.kind == "f" else v) for a, v in smp.items()} for smp in v_] for k, v_ in data.items()}
+    r = interp.run(mb, d)
+    if ctx is not None:
+        ctx.interp_runs += 1
+    out = {}
+    if r[0] == "ok":
+        for sig in r[1]:
+            for k, v in r[1][sig][0].items():
+                v = np.asarray(v, dtype=np.float64)
+                if v.size and np.all(np.isfinite(v)):
+                    out[(sig, k)] = float(np.max(np.abs(v)))
+    return out
+
+
 def compare_float_modes(ctx, interp, case, res, fail):
     """C06: weight-only / float16 / dynamic-range models vs the float model with dequantized constants"""
     modes = modes_in(res["q"], case.mb) - {"none"}
@@ -171,11 +224,12 @@ def compare_float_modes(ctx, interp, case, res, fail):
     a = outputs_of(interp, res["out"], data, ctx)
     b = outputs_of(interp, ref, data, ctx)
     if a[0] != "ok":
-        return fail(f"quantized model does not run: {a[0]} {str(a[1])[:120]}", "quantized-does-not-run")
+        return fail(f"quantized model does not run: {a[0]} {str(a[1])[:120]}", "quantized-does-not-run:" + pl.interp_err_class(a))
     if b[0] != "ok":
         return
     ctx.tag("c06_" + "+".join(sorted(modes)))
     drq = "drq" in modes
+    amag = abs_magnitudes(interp, ref, data, ctx) if drq else {}
     for sig in a[1]:
         for ra, rb in zip(a[1][sig], b[1][sig]):
             for k in ra:
@@ -183,8 +237,11 @@ def compare_float_modes(ctx, interp, case, res, fail):
                 if not np.all(np.isfinite(yb)):
                     continue
                 if not np.all(np.isfinite(ya)):
-                    return fail(f"output {k} is not finite although the reference is", "nonfinite")
+                    cls = producer_class(res["out"], sig, k)
+                    return fail(f"output {k} is not finite although the reference is (computed by {cls})", f"c06-mismatch:{cls}")
                 mag = float(np.max(np.abs(yb))) if yb.size else 0.0
+                if drq:
+                    mag = max(mag, amag.get((sig, k), 0.0))
                 if drq:
                     # dynamic 8-bit activation quantization: generous end-to-end bound (a few percent of the magnitude per op)
                     tol = 0.08 * mag * max(1, len(case.info["subgraphs"][0]["ops"])) + 1e-3
@@ -192,7 +249,10 @@ def compare_float_modes(ctx, interp, case, res, fail):
                     tol = 2e-4 * mag + 1e-5
                 if ya.shape != yb.shape or np.max(np.abs(ya - yb)) > tol:
                     rel = (0.08 if drq else 2e-4)
-                    cls = localise(interp, res["out"], ref, data, lambda mag_: rel * mag_ + (1e-3 if drq else 1e-5), ctx)
+                    floor = 0.08 * mag if drq else 0.0
+                    cls = localise(interp, res["out"], ref, data, lambda mag_: max(rel * mag_, floor) + (1e-3 if drq else 1e-5), ctx)
+                    if cls is None:
+                        cls = producer_class(res["out"], sig, k)
                     return fail(f"output {k} differs from the float model with dequantized constants by "
                                 f"{float(np.max(np.abs(ya - yb))):.4g} (tolerance {tol:.4g}, modes {sorted(modes)}, first operator off: {cls})",
                                 f"c06-mismatch:{cls}")
@@ -210,7 +270,7 @@ def compare_static(ctx, interp, case, res, fail, max_ops=4):
     a = outputs_of(interp, res["out"], data, ctx)
     b = outputs_of(interp, case.mb, data, ctx)
     if a[0] != "ok":
-        return fail(f"quantized model does not run: {a[0]} {str(a[1])[:120]}", "quantized-does-not-run")
+        return fail(f"quantized model does not run: {a[0]} {str(a[1])[:120]}", "quantized-does-not-run:" + pl.interp_err_class(a))
     if b[0] != "ok":
         return
     ctx.tag("c07_checked")
@@ -223,7 +283,8 @@ def compare_static(ctx, interp, case, res, fail, max_ops=4):
                 if not np.all(np.isfinite(yb)) or yb.size == 0:
                     continue
                 if not np.all(np.isfinite(ya)):
-                    return fail(f"output {k} is not finite although the float output is", "nonfinite")
+                    cls = producer_class(res["out"], sig, k)
+                    return fail(f"output {k} is not finite although the float output is (computed by {cls})", f"c07-mismatch:{cls}")
                 step = 0.0
                 if sd:
                     for tm in sd[0].outputs:
@@ -238,6 +299,8 @@ def compare_static(ctx, interp, case, res, fail, max_ops=4):
                 const = np.ptp(yb) > 0.5 * mag and mag > 1e-2 and yb.size > 1 and np.ptp(ya) == 0
                 if off or const:
                     cls = localise(interp, res["out"], case.mb, data, lambda mag_: 0.2 * mag_ + 5e-2, ctx)
+                    if cls is None:   # deviation below the localisation tolerance everywhere: blame the output's own producer
+                        cls = producer_class(res["out"], sig, k)
                     if const:
                         return fail(f"static-range output {k} is constant although the float output is not (first operator off: {cls})",
                                     f"c07-constant:{cls}")
